@@ -73,8 +73,9 @@ func (t *Transformer) transformBind(wb *WireBind, pkg *types.Package) (*KessokuB
 	return &KessokuBind{
 		Interface: unwrapPointer(wb.Interface),
 		Provider: &KessokuProvide{
-			FuncExpr:  funcExpr,
-			SourcePos: wb.Pos,
+			FuncExpr:    funcExpr,
+			SourcePos:   wb.Pos,
+			Synthesized: t.tc != nil,
 		},
 		SourcePos: wb.Pos,
 	}, nil
